@@ -433,6 +433,17 @@ R('bad-selection', 2,
    lambda e, w: e.melt(w.s[0], 'a', variables=['b', 'nosuch']),
    lambda e, w: e.lookup(w.s[0], ('a', 'nosuch'), 'b') and w.s[0]],
   'util.base', c01=False, stack=False, fails=True)
+# hash-based operators keyed on a field that holds unhashable values (lists,
+# dicts): they fail - and leave the rows as they were
+R('unhashable-keys', 2,
+  [lambda e, w: e.hashantijoin(w.s[0], w.s[1], key='d'),
+   lambda e, w: e.hashjoin(w.s[0], w.s[1], key='d'),
+   lambda e, w: e.hashleftjoin(w.s[0], w.s[1], key=('a', 'd')),
+   lambda e, w: e.hashlookupjoin(w.s[0], w.s[1], key='d'),
+   lambda e, w: e.hashcomplement(w.s[0], w.s[1]),
+   lambda e, w: e.hashintersection(w.s[0], w.s[1])],
+  'transform.hashjoins', c01=False, stack=False, fails=True,
+  profile='containers', rect=True)
 R('stack', 2, [lambda e, w: e.stack(w.s[0], w.s[1]),
                lambda e, w: e.stack(w.s[0], w.s[1], missing='M',
                                     trim=False, pad=False),
